@@ -1,5 +1,5 @@
 (* C08 — Resizing a region equals slicing its spliced sequence. *)
-From GTS Require Import Base Arith Loc Region RegionProofs.
+From GTS Require Import Base Arith Loc Region Seq RegionProofs ResizeProofs.
 Open Scope Z_scope.
 
 (* resizing commutes with strand mirroring *)
@@ -11,8 +11,7 @@ Print Assumptions C08_mirror.
 (* a single forward segment and any of the five modifier forms whose bounds
    [lo,hi) stay inside it: the resized segment denotes exactly that slice of
    what the segment denotes (^ = 5' end, $ = 3' end).
-   PARTIAL: multi-segment regions (the walk of Regions.Resize) and the
-   complement strand are decided by the exhaustive correspondence + oracle. *)
+   (kept as the base case; C08_resize_slice below is the general statement) *)
 Theorem C08_segment_resize_slice_partial : forall m h t, h <= t ->
   let '(lo, hi) := mod_bounds m (t - h) in
   0 <= lo -> hi <= t - h ->
@@ -21,6 +20,47 @@ Theorem C08_segment_resize_slice_partial : forall m h t, h <= t ->
   firstn (Z.to_nat (hi - lo)) (skipn (Z.to_nat lo) (region_den (Seg h t))).
 Proof. exact segment_resize_slice. Qed.
 Print Assumptions C08_segment_resize_slice_partial.
+
+(* ANY region: segments of either orientation, nested Regions of any depth and
+   any number of members (rwf: every Regions value non-empty, coordinates far
+   from int overflow), and any of the five modifier forms whose bounds [lo,hi)
+   stay inside the region: Region.Resize succeeds and the result denotes
+   exactly the slice [lo,hi) of what the region denotes, read in the region's
+   own direction; it stays inside every window the region was inside. *)
+Theorem C08_resize_slice : forall r m, rwf r ->
+  0 <= fst (mod_bounds m (region_len r)) -> snd (mod_bounds m (region_len r)) <= region_len r ->
+  exists r', region_resize r m = Ok r' /\
+    region_den r' = lslice (fst (mod_bounds m (region_len r))) (snd (mod_bounds m (region_len r))) (region_den r) /\
+    (forall n, rin n r -> rin n r').
+Proof. exact region_resize_slice. Qed.
+Print Assumptions C08_resize_slice.
+
+(* Region.Locate on a sequence without features reads exactly region_den:
+   p[x] for a forward position, the complement of p[x] for a reverse one *)
+Theorem C08_locate_reads_den : forall p r, rin (zlen p) r ->
+  locate r (bare p) = Ok (bare (map (rd p) (region_den r))).
+Proof. exact locate_bare. Qed.
+Print Assumptions C08_locate_reads_den.
+
+(* hence: the sequence extracted from the resized region is the slice [lo,hi)
+   of the sequence extracted from the whole region *)
+Theorem C08_extract_resized_is_slice : forall p r m, rwf r -> rin (zlen p) r ->
+  0 <= fst (mod_bounds m (region_len r)) -> snd (mod_bounds m (region_len r)) <= region_len r ->
+  exists r' whole, region_resize r m = Ok r' /\ locate r (bare p) = Ok (bare whole) /\
+    zlen whole = region_len r /\
+    locate r' (bare p) =
+      Ok (bare (lslice (fst (mod_bounds m (region_len r))) (snd (mod_bounds m (region_len r))) whole)).
+Proof. exact locate_resize_slice. Qed.
+Print Assumptions C08_extract_resized_is_slice.
+
+(* the hypotheses are met by a spliced CDS on the reverse strand nested beside
+   a forward exon, and the walk really crosses segments *)
+Example C08_hypotheses_met :
+  let r := Regs [Regs [Seg 17 13; Seg 10 9; Seg 6 3]; Seg 20 24] in
+  rwf r /\ rin 30 r /\ region_len r = 12 /\
+  mod_bounds (MHeadTail 2 (-3)) (region_len r) = (2, 9) /\
+  region_resize r (MHeadTail 2 (-3)) = Ok (Regs [Regs [Seg 15 13; Seg 10 9; Seg 6 3]; Seg 20 21]).
+Proof. vm_compute. repeat split; try discriminate; try (intros H; discriminate H). Qed.
 
 Example C08_example :
   region_resize (Regs [Seg 3 6; Seg 9 10; Seg 13 17]) (MHeadHead 3 7)
